@@ -206,7 +206,7 @@ fn parse_join(toks: &[&str]) -> Option<(msi::Select, usize)> {
 }
 
 pub fn cols_tok(cols: &[msi::Column]) -> String {
-    cols.iter().map(|c| ColDef::of_msi(c).tok()).collect::<Vec<_>>().join(",")
+    cols.iter().map(|c| ColDef::of_msi(c).tok()).collect::<Vec<_>>().join("|")
 }
 
 pub fn rows_reply(rows: msi::Rows) -> String {
